@@ -4,7 +4,7 @@
 cd /verif
 git -C /repo status --short | grep -q . && { echo "/repo dirty"; exit 2; }
 for p in "$@"; do
-  git -C /repo apply /verif/$p 2>/dev/null || { echo "$p: does not apply"; continue; }
+  git -C /repo apply $( [ -f /verif/$p ] && echo /verif/$p || echo $p ) 2>/dev/null || { echo "$p: does not apply"; continue; }
   cp coq/Gen/Source.v build/Source.pinned.v
   rep=$(/venv/bin/python harness/pygen.py /repo/src coq/Gen/Source.v 2>/dev/null | grep unreadable | tr -d '\n' | cut -c1-300)
   changed=$(diff build/Source.pinned.v coq/Gen/Source.v | grep -c '^[<>]')
